@@ -4,6 +4,8 @@
 // Without the `verif` build tag every function is an empty, inlinable no-op.
 package verifhook
 
+import "os"
+
 // Enabled reports whether the hooks are compiled in.
 const Enabled = false
 
@@ -15,3 +17,9 @@ func Gate(name string, kv ...any) {}
 
 // Count increments the named work counter (used to bound the work of graph algorithms).
 func Count(name string) {}
+
+// Controlled reports whether an external controller steps this process through its gates.
+func Controlled() bool { return false }
+
+// Ino returns the inode number behind an open file (0 without the verif tag).
+func Ino(f *os.File) uint64 { return 0 }
